@@ -53,6 +53,8 @@ pub(super) struct JsonTokenizer<'a> {
     json: &'a [u8],
     lookahead: Option<char>,
     skip_whitespaces: bool,
+    /// current nesting depth of the document being read (maintained by the reader)
+    pub(super) depth: usize,
 }
 
 impl<'a> JsonTokenizer<'a> {
@@ -61,6 +63,7 @@ impl<'a> JsonTokenizer<'a> {
             json: s.as_bytes(),
             lookahead: None,
             skip_whitespaces: true,
+            depth: 0,
         }
     }
 
